@@ -491,7 +491,7 @@ def case_cuts(arg):
             obs.append(o)
             os.remove(path)
         return {'tid': tid, 'kind': 'cuts', 'cfg': cfg, 'names': names,
-                'reader': rname, 'obs': obs}
+                'reader': rname, 'nbytes': len(data), 'obs': obs}
     finally:
         signal.signal(signal.SIGALRM, old)
         shutil.rmtree(tmp, ignore_errors=True)
